@@ -175,7 +175,7 @@ def ownerOf (toks : List String) : Bytes :=
   | "k" :: _ => strBytes "k"
   | "p" :: _ => strBytes "p"
   | op :: _ =>
-    if op ∈ ["consumer_create", "poll", "poll_keep", "seek", "consume", "commit", "consumer_drop", "consumer_into_client"] then strBytes "k"
+    if op ∈ ["consumer_create", "poll", "poll_keep", "poll_mark", "seek", "consume", "commit", "consumer_drop", "consumer_into_client"] then strBytes "k"
     else if op ∈ ["producer_create", "send_all", "send", "producer_into_client"] then strBytes "p"
     else strBytes "c"
   | [] => strBytes "c"
@@ -389,6 +389,7 @@ def runOp (env : Env RW) (s : Sess) (w : RW) (toks : List String) : Option (Sess
     | "k" :: _ => s.cons.isNone
     | ["poll"] => s.cons.isNone
     | ["poll_keep"] => s.cons.isNone
+    | ["poll_mark"] => s.cons.isNone
     | "seek" :: _ => s.cons.isNone
     | "consume" :: _ => s.cons.isNone
     | ["commit"] => s.cons.isNone
@@ -445,6 +446,13 @@ def runOp (env : Env RW) (s : Sess) (w : RW) (toks : List String) : Option (Sess
     | _, _ => none
   | tgt :: "fetch_messages" :: args =>
     (parseFetchArgs args).bind fun args => (withClient s w tgt (fetchMessages env args)).map fun (s, w, o) => (s, w, outStr fmtFetch o)
+  -- thin public wrappers: `fetch_messages_for_partition`, `commit_offset`
+  | [tgt, "fetch_for_partition", t, p, o, m] =>
+    (parseFetchArgs [t, p, o, m]).bind fun args => (withClient s w tgt (fetchMessages env args)).map fun (s, w, o) => (s, w, outStr fmtFetch o)
+  | [tgt, "commit_offset", g, t, p, o] =>
+    match fromHex g, fromHex t, p.toInt?, o.toInt? with
+    | some g, some t, some p, some o => (withClient s w tgt (commitOffsets env g [(t, p, o)])).map fun (s, w, r) => (s, w, outStr (fun _ => "ok") r)
+    | _, _, _, _ => none
   -- results kept alive by the harness (C18): at the value level the same calls; re-reading a live result shows what it showed
   | tgt :: "fetch_keep" :: args =>
     (parseFetchArgs args).bind fun args => (withClient s w tgt (fetchMessages env args)).map fun (s, w, o) => (s, w, outStr fmtFetch o)
@@ -492,6 +500,21 @@ def runOp (env : Env RW) (s : Sess) (w : RW) (toks : List String) : Option (Sess
     s.cons.map fun k =>
       let (wc, o) := poll env ⟨w, k⟩
       ({ s with cons := some wc.cons }, wc.world, outStr fmtPoll o)
+  | ["poll_mark"] =>
+    -- `poll`, then `consume_messageset` on every delivered set (= `consume_message` at its last offset)
+    s.cons.map fun k =>
+      let (wc, o) := poll env ⟨w, k⟩
+      match o with
+      | .ok r =>
+        let sets := sortBy (fun (a b : Bytes × Int × List Message) => bytesLt a.1 b.1 || (a.1 == b.1 && a.2.1 < b.2.1)) (iterate r.responses)
+        let (wc, marks) := sets.foldl (fun (acc : WC RW × List String) (x : Bytes × Int × List Message) =>
+          match x.2.2.getLast? with
+          | some last =>
+            let (wc', r) := consumeMessage x.1 x.2.1 last.offset acc.1
+            (wc', acc.2 ++ [match r with | .ok _ => "ok" | .err e => errStr e | .panic _ => "panic" | .diverge => "diverge"])
+          | none => (acc.1, acc.2 ++ ["ok"])) (wc, [])
+        ({ s with cons := some wc.cons }, wc.world, fmtPoll r ++ " marks=" ++ ",".intercalate marks)
+      | o => ({ s with cons := some wc.cons }, wc.world, outStr fmtPoll o)
   | ["seek", t, p, o] =>
     match s.cons, fromHex t, p.toInt?, o.toInt? with
     | some k, some t, some p, some o =>
